@@ -24,6 +24,15 @@ m["checks"] = checks
 claimed = [c["property_id"] for c in checks]
 m["engines"] = [{"name": "lean4-ibx", "path": "/verif/lean", "serves_properties": claimed,
                  "kind_free_text": "Lean 4 model + theorems (lake project Ibx), compiled line-protocol driver ibxdrv, Go correspondence harness /verif/harness, orchestrated by /verif/check"}]
+import subprocess
+try:
+    log = subprocess.check_output(["git", "-C", "/repo", "log", "--format=%h %s"], text=True).splitlines()
+    m["hooks"]["source_commits"] = [l.split()[0] for l in log if " verif hook:" in " " + l]
+    m["notes"] = ("Machine-checked proof in Lean 4 (lake project /verif/lean, core Lean only) over executable models tied to /repo on every run by regenerated facts (T1), "
+                  "differential correspondence (T2) and step traces (T3); see DESIGN.md §0. Genuine defects repaired by `fix:` commits in /repo: "
+                  + ", ".join(l.split()[0] for l in log if " fix:" in " " + l) + "; open findings are listed in known_findings.json and replayed on every run.")
+except Exception:
+    pass
 m["not_applicable"] = [{"property_id": i, "reason": nc.get(i, "not yet claimed: machinery for this property is under construction (see DESIGN.md)")} for i in ids if i not in claimed]
 json.dump(m, open(os.path.join(V, "MANIFEST.json"), "w"), indent=1)
 print("claimed:", claimed)
